@@ -290,6 +290,26 @@ func AnalyzeLess(fn *ssa.Function) *CmpResult {
 		res.Undecided = "no body"
 		return res
 	}
+	// a function literal that only forwards to a Less method (sort.Slice(x, func(i, j int) bool { return x.Less(i, j) })):
+	// the order is that method's
+	if len(fn.Blocks) == 1 && len(fn.Params) == 2 {
+		var fwd *ssa.Call
+		n := 0
+		for _, ins := range fn.Blocks[0].Instrs {
+			if call, ok := ins.(*ssa.Call); ok {
+				n++
+				fwd = call
+			}
+		}
+		if n == 1 {
+			if g := fwd.Call.StaticCallee(); g != nil && g.Signature.Recv() != nil && len(g.Params) == 3 && len(fwd.Call.Args) == 3 &&
+				fwd.Call.Args[1] == ssa.Value(fn.Params[0]) && fwd.Call.Args[2] == ssa.Value(fn.Params[1]) {
+				if ret, ok := fn.Blocks[0].Instrs[len(fn.Blocks[0].Instrs)-1].(*ssa.Return); ok && len(ret.Results) == 1 && ret.Results[0] == ssa.Value(fwd) {
+					return AnalyzeLess(g)
+				}
+			}
+		}
+	}
 	// element type: the receiver (method) or first free variable (closure) slice
 	var coll types.Type
 	if fn.Signature.Recv() != nil && len(fn.Params) == 3 {
